@@ -274,6 +274,8 @@ pub struct Rendered {
     pub entry_lines: Vec<(usize, usize)>,
     /// For transactions: 1-based line of each posting.
     pub post_lines: Vec<Vec<usize>>,
+    /// File holding each entry (empty = the single root file), when the ledger was cut into includes.
+    pub entry_paths: Vec<String>,
 }
 
 pub fn entry_text(e: &Entry) -> (String, Vec<usize>) {
